@@ -12,7 +12,10 @@ env = dict(os.environ, WT=wt, BASE=os.environ.get("BASE", "main"), GOFLAGS="-mod
 head = subprocess.run(["git", "-C", checkout, "rev-parse", "--short", "HEAD"], stdout=subprocess.PIPE, text=True).stdout.strip()
 repo = subprocess.run(["git", "-C", "/repo", "rev-parse", "--short", "HEAD"], stdout=subprocess.PIPE, text=True).stdout.strip()
 for pid in ids:
-    dirs = sorted(glob.glob(os.path.join(root, "seeded", pid + "-*")), key=lambda d: int(d.rsplit("-", 1)[1]))
+    if "-" in pid:  # one mutant, e.g. C05-12
+        dirs, pid = [os.path.join(root, "seeded", pid)], pid.split("-")[0]
+    else:
+        dirs = sorted(glob.glob(os.path.join(root, "seeded", pid + "-*")), key=lambda d: int(d.rsplit("-", 1)[1]))
     for d in dirs:
         q = subprocess.run([os.path.join(checkout, "tools", "mutant_check.sh"), os.path.join(d, "patch.diff"), pid],
                            cwd=checkout, env=env, stdout=subprocess.PIPE, stderr=subprocess.STDOUT, text=True)
